@@ -154,6 +154,9 @@ type c03Env struct {
 	alias   map[string]string // real hash -> alias
 	curKey  string            // identity of the cache content currently built
 	curSnap *c12Snap
+	// oracle bookkeeping
+	loadedNotCovering []string
+	nSup, nUnsup      int
 }
 
 func newC03Env() (*c03Env, error) {
@@ -328,6 +331,11 @@ func (env *c03Env) lookupCase(w *emit.Writer, in c03In, class string) error {
 			return fmt.Errorf("pool certificate %s: validity margin violated", id)
 		}
 		attrs[id] = at{hello.SupportsCertificate(&c.tls) == nil, valid, len(c.tls.Certificate) > 0 && c.tls.PrivateKey != nil}
+		if attrs[id].sup {
+			env.nSup++
+		} else {
+			env.nUnsup++
+		}
 	}
 	name, nerr := env.cfg.VerifNameFromClientHello(hello)
 	qual := nerr == nil && certmagic.SubjectQualifiesForCert(name)
@@ -347,6 +355,13 @@ func (env *c03Env) lookupCase(w *emit.Writer, in c03In, class string) error {
 		}
 		if l != nil && !l.Expired { // an expired one cannot be renewed without on-demand: load fails
 			loaded = l
+			covered := false
+			for _, san := range l.Names {
+				covered = covered || certmagic.MatchWildcard(name, san)
+			}
+			if !covered {
+				env.loadedNotCovering = append(env.loadedNotCovering, fmt.Sprintf("%s for %q", l.ID, name))
+			}
 		}
 	}
 	// the call
@@ -708,5 +723,12 @@ func runC03(tier string, seed int64, outdir string, replay string) error {
 			}
 		}
 	}
+	det := strings.Join(env.loadedNotCovering, "; ")
+	if len(det) > 300 {
+		det = det[:300]
+	}
+	w.Meta.Oracles = append(w.Meta.Oracles,
+		emit.OracleCheck{Name: "what loadCertFromStorage can yield lists a name covering the requested name (storage holds certificates under their own names: C06)", OK: len(env.loadedNotCovering) == 0, Detail: det},
+		emit.OracleCheck{Name: "hello.SupportsCertificate was observed both true and false over the pool", OK: env.nSup > 0 && env.nUnsup > 0, Detail: fmt.Sprintf("supported=%d unsupported=%d", env.nSup, env.nUnsup)})
 	return nil
 }
